@@ -2274,7 +2274,8 @@ XPath::literal(
     const XToken* const     theLiteral = m_expression.getToken(m_expression.getOpCodeMapValue(opPos + 2));
     assert(theLiteral != 0);
 
-    theString = theLiteral->str();
+    // The result is appended, as for every other kind of expression...
+    theString.append(theLiteral->str());
 }
 
 
@@ -2385,7 +2386,8 @@ XPath::numberlit(
         m_expression.getToken(m_expression.getOpCodeMapValue(opPos + 3));
     assert(theLiteral != 0);
 
-    theString = theLiteral->str();
+    // The result is appended, as for every other kind of expression...
+    theString.append(theLiteral->str());
 }
 
 
